@@ -62,6 +62,7 @@ struct Cfg {
     maxf: u32,
     filter: String,
     style: char,
+    onchain: bool,
     allow: Vec<String>,
     xpubs: Vec<u32>,
 }
@@ -78,16 +79,18 @@ impl Cfg {
             minf: p[0].parse().ok()?,
             maxf: p[1].parse().ok()?,
             filter: p[2].to_string(),
-            style: p[3].chars().next()?,
+            style: p[3].chars().next()?.to_ascii_lowercase(),
+            onchain: p[3].chars().next()?.is_ascii_uppercase(),
             allow: list(p[4]),
             xpubs: list(p[5]).iter().map(|s| s.parse().ok()).collect::<Option<Vec<u32>>>()?,
         })
     }
     fn to_string(&self) -> String {
         let l = |v: &Vec<String>| if v.is_empty() { "-".to_string() } else { v.join(",") };
-        format!("{};{};{};{};{};{}", self.minf, self.maxf, self.filter, self.style, l(&self.allow), l(&self.xpubs.iter().map(|x| x.to_string()).collect()))
+        format!("{};{};{};{};{};{}", self.minf, self.maxf, self.filter, if self.onchain { self.style.to_ascii_uppercase() } else { self.style }, l(&self.allow), l(&self.xpubs.iter().map(|x| x.to_string()).collect()))
     }
-    /// d = default, p = permissive, wd / wl / wf = warn exactly on the destination / htlc-locktime / htlc-fee tag
+    /// d = default, p = permissive, wd / wl / wf / ws = warn exactly on the destination / htlc-locktime / htlc-fee /
+    /// channel-safe-type tag
     fn policy_filter(&self) -> PolicyFilter {
         let one = |t: &str| PolicyFilter { rules: vec![FilterRule { tag: t.into(), is_prefix: false, action: FilterResult::Warn }] };
         match self.filter.as_str() {
@@ -95,6 +98,8 @@ impl Cfg {
             "wd" => one(T_DEST),
             "wl" => one(T_LOCK),
             "wf" => one(T_FEE),
+            // only the channel-type safety tag demoted: admits the deprecated CommitmentType::Anchors, everything else strict
+            "ws" => one("policy-channel-safe-type"),
             _ => PolicyFilter::default(),
         }
     }
@@ -164,7 +169,7 @@ fn services_for(cfg: &Cfg, persister: Arc<dyn Persist>) -> NodeServices {
     policy.max_feerate_per_kw = cfg.maxf;
     policy.filter = cfg.policy_filter();
     NodeServices {
-        validator_factory: Arc::new(SimpleValidatorFactory::new_with_policy(policy)),
+        validator_factory: super::c08::validator_factory(policy, cfg.onchain),
         starting_time_factory: make_genesis_starting_time_factory(NET),
         persister,
         clock: Arc::new(ManualClock::new(Duration::from_secs(1_600_000_000))),
@@ -568,7 +573,7 @@ impl C09Sweep {
 
 fn gen_cfg(rng: &mut Rng) -> Cfg {
     let (minf, maxf) = match rng.below(8) { 0 => (0, 333_333), 1 => (253, 25_000), 2 => (1000, 1000), 3 => (253, u32::MAX), _ => (253, 333_333) };
-    let filter = match rng.below(16) { 0 => "p", 1 => "wd", 2 => "wl", 3 => "wf", _ => "d" }.to_string();
+    let filter = match rng.below(16) { 0 => "p", 1 => "wd", 2 => "wl", 3 => "wf", 4 | 5 | 6 => "ws", _ => "d" }.to_string();
     let style = if rng.chance(1, 4) { 'l' } else { 'n' };
     let mut allow = vec![];
     for _ in 0..rng.below(4) {
@@ -583,7 +588,7 @@ fn gen_cfg(rng: &mut Rng) -> Cfg {
     for _ in 0..(if rng.chance(1, 2) { rng.below(3) } else { 0 }) { xpubs.push(rng.below(3) as u32); }
     xpubs.sort();
     xpubs.dedup();
-    Cfg { minf, maxf, filter, style, allow, xpubs }
+    Cfg { minf, maxf, filter, style, onchain: rng.chance(1, 3), allow, xpubs }
 }
 
 fn gen_dests(rng: &mut Rng, cfg: &Cfg, removed: &[String]) -> (Vec<u32>, Vec<Desc>) {
@@ -626,7 +631,8 @@ fn gen_seq(rng: &mut Rng, good: &[u32]) -> u32 {
     match rng.below(16) {
         0 => g.wrapping_add(1),
         1 => g.wrapping_sub(1),
-        2 => *rng.pick(&[0u32, 0xffff_ffff, 0xffff_fffe, 0xffff_fffd, 1, 2]),
+        // the classic constants and the values permitted for the OTHER sweep kinds (contest delays, anchor sequence)
+        2 | 7 => *rng.pick(&[0u32, 0xffff_ffff, 0xffff_fffe, 0xffff_fffd, 1, 2, CP_DELAY as u32, HOLDER_DELAY as u32]),
         3 | 4 | 5 => g | *rng.pick(&[0x8000_0000u32, 0x0040_0000, 0x0001_0000, 0xffff_0000]),
         6 => (g & 0xffff) | ((rng.next() as u32) & 0xffff_0000),
         _ => g,
@@ -678,6 +684,12 @@ impl Group for C09Sweep {
             c("env 253;333333;d;n;-;- s|delayed 253;333333;d;n;-;- s 100 2 0 2147483655 0 0 1 1 W/1/w|delayed 253;333333;d;n;-;- s 100 2 0 4194311 0 0 1 1 W/1/w|delayed 253;333333;d;n;-;- s 100 2 0 4294901767 0 0 1 1 W/1/w|delayed 253;333333;d;n;-;- s 100 2 0 65543 0 0 1 1 W/1/w"),
             // allowlist A, sweep to A signed; remove A: refused; restart from the store: still refused; add again + restart: signed
             c("env 253;333333;d;n;F/3/w;- s|justice 253;333333;d;n;F/3/w;- s 100 2 0 0 0 - F/3/w|allow remove F/3/w|justice 253;333333;d;n;-;- s 100 2 0 0 0 - F/3/w|restart|justice 253;333333;d;n;-;- s 100 2 0 0 0 - F/3/w|delayed 253;333333;d;n;-;- s 100 2 0 7 0 0 1 - F/3/w|allow add F/3/w|restart|justice 253;333333;d;n;F/3/w;- s 100 2 0 0 0 - F/3/w"),
+            // deprecated option_anchors channel (safe-type tag demoted): the fee floor applies (only zero-fee-HTLC channels have no
+            // fee): feerate 1000 signed, feerate 0 refused, the smallest fee that still implies 253 sat/kw signed
+            c("env 253;333333;ws;n;-;- a|htlc 253;333333;ws;n;-;- a h 2 131072 5:0:0 9337:r0/7/0 o 1 10000|htlc 253;333333;ws;n;-;- a h 2 131072 5:0:0 10000:r0/7/0 o 1 10000|htlc 253;333333;ws;n;-;- a c 2 0 5:0:0 9823:r0/6/0 r 1 10000"),
+            // vlsd's default OnchainValidatorFactory (upper-case style letter): justice sweep sequences 0 / 0xfffffffd / 0xffffffff signed,
+            // the contest delay refused; delayed sweep the other way round
+            c("env 253;333333;d;N;-;- s|justice 253;333333;d;N;-;- s 100 2 0 0 0 1 W/1/w|justice 253;333333;d;N;-;- s 100 2 0 4294967293 0 1 W/1/w|justice 253;333333;d;N;-;- s 100 2 0 7 0 1 W/1/w|delayed 253;333333;d;N;-;- s 100 2 0 7 0 0 1 1 W/1/w|delayed 253;333333;d;N;-;- s 100 2 0 0 0 0 1 1 W/1/w"),
             // canonical HTLC-timeout (non-anchors, feerate 1000 → fee 663) and a wrong delay
             c("env 253;333333;d;n;-;- s|htlc 253;333333;d;n;-;- s h 2 131072 5:0:0 9337:r0/7/0 o 0 10000|htlc 253;333333;d;n;-;- s h 2 131072 5:0:0 9337:r0/6/0 o 0 10000"),
         ]
@@ -716,7 +728,8 @@ impl Group for C09Sweep {
     }
     fn gen_case(&self, rng: &mut Rng, tier: Tier) -> Vec<String> {
         let mut cfg = gen_cfg(rng);
-        let ct = if cfg.filter == "p" && rng.chance(1, 2) { "a" } else if rng.chance(1, 2) { "z" } else { "s" };
+        // the deprecated plain option_anchors type is only admitted with policy-channel-safe-type demoted (ws, or permissive)
+        let ct = if (cfg.filter == "p" && rng.chance(1, 2)) || (cfg.filter == "ws" && rng.chance(3, 4)) { "a" } else if rng.chance(1, 2) { "z" } else { "s" };
         let mut ops = vec![format!("env {} {}", cfg.to_string(), ct)];
         let n = rng.range(2, if tier == Tier::Quick { 6 } else { 12 });
         // destinations that were allowlisted earlier in this case and are not any more
